@@ -609,6 +609,14 @@ func (p *Prog) cursorLoop(fn *ssa.Function, l *Loop) (loopClass, bool) {
 				}
 			}
 		}
+		// … or through an accessor (`if b.Err() != nil`)
+		if hc, ok := bo.X.(*ssa.Call); ok && base == nil {
+			if sc := hc.Call.StaticCallee(); sc != nil && sc.Signature.Results().Len() == 1 {
+				if k := p.helperReturnsSticky(cur, sc, 0, 0); k >= 0 && k < len(hc.Call.Args) {
+					base = hc.Call.Args[k]
+				}
+			}
+		}
 		if base == nil {
 			continue
 		}
